@@ -236,6 +236,14 @@ pub fn check(c: &Case) -> Result<(), String> {
                 let copy = Slot { r: slots[cur].r.clone(), pos: slots[cur].pos };
                 if slots.len() == 1 {
                     slots.push(copy);
+                } else if i % 2 == 1 {
+                    // every other time: Clone::clone_from into the other, already used reader
+                    let other = 1 - cur;
+                    let (x, y) = slots.split_at_mut(1);
+                    let (dst, src) = if cur == 0 { (&mut y[0], &x[0]) } else { (&mut x[0], &y[0]) };
+                    dst.r.clone_from(&src.r);
+                    dst.pos = src.pos;
+                    ensure!(slots[other].r.position() == slots[other].pos, "{}: position() = {} after clone_from from a reader at {}", what, slots[other].r.position(), slots[other].pos);
                 } else {
                     let other = 1 - cur;
                     slots[other] = copy;
@@ -404,7 +412,7 @@ pub fn strategy(tier: Tier) -> BoxedStrategy<Case> {
 pub fn subs() -> Vec<Box<dyn DynSub>> {
     vec![Box::new(PropSub::<Case> {
         name: "streams",
-        rule: "proptest: root state (mode x input biased to block/chunk edges, or merge_subtrees_root_xof over random CVs) x 0-30 ops (0-80 thorough) of fill/read/read_exact/read_vectored/take+read_to_end/bytes/io::copy/rewind/set_position/seek(Start|Current|End)/position/stream_position/clone/swap; positions from the 64*K lattice (small, 2^32-block edge, 2^33, 2^64-1-d, random), reads clamped to stay <= 2^64-1; model = u64 position + spec S[p..p+n]; non-trivial = a successful seek/set_position and a read starting mid-block or spanning >=17 blocks",
+        rule: "proptest: root state (mode x input biased to block/chunk edges, or merge_subtrees_root_xof over random CVs) x 0-30 ops (0-80 thorough) of fill/read/read_exact/read_vectored/take+read_to_end/bytes/io::copy/rewind/set_position/seek(Start|Current|End)/position/stream_position/clone/clone_from/swap; positions from the 64*K lattice (small, 2^32-block edge, 2^33, 2^64-1-d, random), reads clamped to stay <= 2^64-1; model = u64 position + spec S[p..p+n]; non-trivial = a successful seek/set_position and a read starting mid-block or spanning >=17 blocks",
         cases: (200_000, 2_000_000),
         strategy,
         classify,
